@@ -123,3 +123,38 @@ _rm.ensures.append(_Clause("complete-request-is-not-5005",
     "len(out(conn)) == old(len(out(conn))) + 1, new_out(conn).result_code != 5005)"))
 if "C08" not in _rm.props:
     _rm.props.append("C08")
+
+# ---- C08.routes: construction of the route table -----------------------------------------------------------
+R.kind_hints[("Node.add_application", "{}")] = "Dict[Any:routekey,List[Peer]]"
+R.kind_hints[("Node.add_application", "[]")] = "List[Peer]"
+R.contract("Application.start", trusted=True, params={"self": "Application"}, modifies=["*StoppableThread.started"],
+           note="behavioural contract of the polymorphic start(): starts the application's own worker threads, if any")
+R.macro("routed", ["n", "a", "p", "r"], "r in n._peer_routes and a in n._peer_routes[r] and p in n._peer_routes[r][a]")
+R.macro("wanted", ["p", "r", "realms"], "r == p.realm_name or (not is_none(realms) and r in items(some(realms)))")
+R.contract("Node.add_application",
+           params={"self": "Node", "app": "Application", "peers": "List[Peer]", "realms": "Opt[List[str]]"},
+           ghost={"p": "Peer", "r": "str", "p2": "Peer", "r2": "str", "k2": "Any:routekey"},
+           requires=[("own-peer-list", "peers != self.applications")],
+           ensures=[("every-configured-peer-is-routed-in-its-realm-and-the-extra-realms",
+                     "implies(p in old(items(peers)) and wanted(p, r, realms), routed(self, app, p, r))"),
+                    ("existing-routes-are-kept",
+                     "implies(old(r2 in self._peer_routes and k2 in self._peer_routes[r2] and p2 in self._peer_routes[r2][k2]), "
+                     "r2 in self._peer_routes and k2 in self._peer_routes[r2] and p2 in self._peer_routes[r2][k2])"),
+                    ("registered", "app in items(self.applications) and app._node == self")],
+           modifies=["list:self.applications", "dict:self._peer_routes", "*dict:Dict[Any:routekey,List[Peer]]", "*list:Peer",
+                     "app._node", "*StoppableThread.started"],
+           props=["C08"])
+_KEEP = ("implies(old(r2 in self._peer_routes and k2 in self._peer_routes[r2] and p2 in self._peer_routes[r2][k2]), "
+         "r2 in self._peer_routes and k2 in self._peer_routes[r2] and p2 in self._peer_routes[r2][k2])")
+R.loop("Node.add_application", 0,
+       invariants=[("done-peers-routed", "implies(p in done and wanted(p, r, realms), routed(self, app, p, r))"),
+                   ("kept", _KEEP), ("inputs-fixed", "seq == old(items(peers))"),
+                   ("app-listed", "app in items(self.applications)")],
+       modifies=["dict:self._peer_routes", "*dict:Dict[Any:routekey,List[Peer]]", "*list:Peer"])
+R.loop("Node.add_application", 1,
+       invariants=[("earlier-peers-routed", "implies(p in done0 and wanted(p, r, realms), routed(self, app, p, r))"),
+                   ("this-peer-routed-so-far", "implies(r in done, routed(self, app, peer, r))"),
+                   ("kept", _KEEP),
+                   ("realm-list", "implies(wanted(peer, r, realms), r in seq)"),
+                   ("app-listed", "app in items(self.applications)")],
+       modifies=["dict:self._peer_routes", "*dict:Dict[Any:routekey,List[Peer]]", "*list:Peer"])
